@@ -735,6 +735,9 @@ func (in *Interp) eval(x gen.Expr, e *env, fe *fenv) (V, *ErrV) {
 			if i, ok := v.(int64); ok {
 				return -i, nil
 			}
+			if _, ok := v.(string); ok {
+				return nil, &ErrV{Name: "TypeError", Msg: "invalid type for unary '-': 'string'", MsgKnown: true}
+			}
 		}
 		in.unsup("unary %s on %T", x.Op, v)
 	case gen.Logic:
